@@ -95,27 +95,22 @@ func genCase(t *rapid.T) Case {
 	return c
 }
 
-// writeSorted writes the rows, sorted by the first non-repeated leaf (by the
-// library's own sorting buffer), with the case's options.
+// writeSorted writes the rows, sorted by the zkey column (by the library's own
+// sorting buffer), with the case's options.
 func writeSorted(c Case, cols []ref.Column, prows []parquet.Row) ([]byte, error) {
 	schema := pq.BuildSchema(&c.Schema)
-	for _, col := range cols {
-		if col.MaxRep == 0 {
-			b := parquet.NewBuffer(schema, parquet.SortingRowGroupConfig(parquet.SortingColumns(parquet.Ascending(col.Path...))))
-			if _, err := b.WriteRows(prows); err != nil {
-				return nil, err
-			}
-			sort.Sort(b)
-			r := b.Rows()
-			sorted, err := pq.ReadAllRows(r, 64)
-			r.Close()
-			if err != nil {
-				return nil, err
-			}
-			prows = sorted
-			break
-		}
+	b := parquet.NewBuffer(schema, parquet.SortingRowGroupConfig(parquet.SortingColumns(parquet.Ascending("zkey"))))
+	if _, err := b.WriteRows(prows); err != nil {
+		return nil, err
 	}
+	sort.Sort(b)
+	r := b.Rows()
+	sorted, err := pq.ReadAllRows(r, 64)
+	r.Close()
+	if err != nil {
+		return nil, err
+	}
+	prows = sorted
 	var buf bytes.Buffer
 	w := parquet.NewWriter(&buf, append([]parquet.WriterOption{schema}, pq.Options(c.Opts, cols, "")...)...)
 	if _, err := w.WriteRows(prows); err != nil {
@@ -157,8 +152,18 @@ type seekRows interface {
 }
 
 func runCase(c Case, o *kit.Obs) *kit.Failure {
-	cols := ref.Columns(&c.Schema)
 	rows := c.Plan.Expand()
+	if c.Kind == "MergeRowGroups.Rows(forward-only)" {
+		// a unique merge key in front of the generated columns: the order of a merge among equal
+		// keys of different inputs is not defined (it varies with the read batch size)
+		sch := c.Schema
+		sch.Children = append([]ref.Node{{Name: "zkey", Rep: "req", Kind: "leaf", Leaf: "int64"}}, sch.Children...)
+		c.Schema = sch
+		for i := range rows {
+			rows[i] = ref.V{F: append([]ref.V{{I: int64(i) * 7919 % 100003}}, rows[i].F...)}
+		}
+	}
+	cols := ref.Columns(&c.Schema)
 	feat := fmt.Sprintf("{kind=%s,index=%v,async=%v}", c.Kind, !c.SkipIndex, c.Async)
 	prows := pq.Rows(&c.Schema, cols, rows)
 	wantRows, err := ref.SplitRows(ref.ShredRows(&c.Schema, rows))
@@ -318,17 +323,7 @@ func runCase(c Case, o *kit.Obs) *kit.Failure {
 			return nil
 		}
 		// a sorting column makes it a k-way merge (without one the row groups are concatenated)
-		var sorting []parquet.SortingColumn
-		for _, col := range cols {
-			if col.MaxRep == 0 {
-				sorting = append(sorting, parquet.Ascending(col.Path...))
-				break
-			}
-		}
-		if sorting == nil {
-			o.Class("no-sortable-column")
-			return nil
-		}
+		sorting := []parquet.SortingColumn{parquet.Ascending("zkey")}
 		merged, err := parquet.MergeRowGroups(f.RowGroups(), parquet.SortingRowGroupConfig(parquet.SortingColumns(sorting...)))
 		if err != nil {
 			return kit.Failf("c08/merge-error", "%v", err)
